@@ -58,8 +58,10 @@ def replyPacket (zeroCode : Variant) (env : Env) (req : ReqPacket) (sig : Sig) (
 /-- what the implementation produced is well-typed, and the response frame is within the limit -/
 structure ImplOK (zeroCode : Variant) (env : Env) (cfg : Cfg) (req : ReqPacket) (sig : Sig)
     (out : ImplOut) : Prop where
-  /-- on success: return value and out parameters are Go values of their types, the response
-      context / status are maps of strings below the codec's limits -/
+  /-- on success: a return value iff the function has one; return value and out parameters are Go
+      values of their types; the response context / status are maps of strings below the codec's
+      limits -/
+  shape  : out.err = none → out.ret.isSome = sig.ret.isSome
   vals   : out.err = none → WTm env (rspFields sig) (out.ret.toList ++ out.outs)
   ctx    : MapOK (out.rspCtx.getD [])
   status : MapOK (out.rspStatus.getD [])
@@ -71,6 +73,36 @@ structure ImplOK (zeroCode : Variant) (env : Env) (cfg : Cfg) (req : ReqPacket) 
 /-- the caller's out variables hold zero values (fresh variables) -/
 def OutsFresh (env : Env) (sig : Sig) (args : List Val) : Prop :=
   OldOKs env (outFields sig) (outVals sig.params args)
+
+/-- what the caller's `opts` maps hold after the proxy's copy-back of the response context `rctx` and
+    status `rst` (non-nil maps): one map given → it holds the response context; two → context and
+    status; none (or more than two) → nothing is copied -/
+def copiedMaps (opts : List (Option StrMap)) (rctx rst : StrMap) : Option StrMap × Option StrMap :=
+  match opts with
+  | [_] => (some rctx, none)
+  | [_, _] => (some rctx, some rst)
+  | _ => optsMaps opts
+
+/-- the round-trip normal form (C03 `normVar`) of a return value / of the out values -/
+def normRet (env : Env) (sig : Sig) (r : Option Val) : Option Val :=
+  match sig.ret, r with
+  | some t, some v => some (normVar env true t none v)
+  | _, _ => none
+
+def normOuts (env : Env) (sig : Sig) (outs : List Val) : List Val :=
+  normMembers env (outFields sig) outs
+
+def normIns (env : Env) (sig : Sig) (args : List Val) : List Val :=
+  normMembers env (inFields sig) (inVals sig.params args)
+
+/-- the description `doInvoke` uses: the server's, or the synthetic one if that is empty -/
+def descOr (iret : Int) (m : Bytes) : Bytes := if m = [] then synthDesc iret else m
+
+/-- what the caller gets (current code) when the implementation returned the error `e` -/
+def arrives : GoErr → GoErr
+  | .plain m => .plain (descOr cpPlainErrRet m)
+  | .tars c m =>
+    if c ≠ cpCodeLo ∧ c ≠ cpCodeHi then .tars c (descOr c m) else .plain (descOr cpPlainErrRet m)
 
 /-- a way of running a computation (a registration of filters applied to it) that passes it
     through: records `b`, runs it once on the state found, records `a`, returns its result -/
